@@ -25,7 +25,7 @@ MCSpec == Init /\ [][MCNext]_vars
 (* Run-to-completion scheduling: while a loop iteration is under way (an event is queued, the loop is sending   *)
 (* shares or waits for a confirmation) only that miner's steps and the execution of its transactions are taken. *)
 (* The actions stay those of VCClient.tla; only their interleaving is restricted (the unrestricted MCSpec is    *)
-(* explored with smaller bounds in MC_VCClient_free.cfg).                                                      *)
+(* explored with smaller bounds in MC_VCClient_thorough_free.cfg).                                                      *)
 Busy == {m \in Miner : cl[m].inbox # NoPn \/ cl[m].lp \in {"sharing", "confirm"}}
 R_LoopTake == \E m \in Busy : LoopTake(m)
 R_ShareRPC == \E m \in Busy, j \in Miner : ShareRPC(m, j)
